@@ -241,14 +241,10 @@ def strip(case):
     return {k: v for k, v in case.items() if k not in ("job", "tag", "error")}
 
 
-def key_of(case, clause):
-    non_c = any(lo not in C_LIKE for lo in case["job"].get("layouts", []))
-    if non_c and clause.split(":")[-1] in ("nan_in_a_layer_must_give_nan", "value_is_not_the_definition_at_that_cell",
-                                            "frequencies_do_not_sum_to_layer_count", "same_id_iff_same_tuple",
-                                            "key_does_not_map_id_to_the_cells_tuple",
-                                            "ids_not_numbered_from_1_in_first_occurrence_order"):
-        # np.nditer in its default order walks non-C-ordered layers in memory order while the flat result is
-        # reshaped as if it were C order (repaired by ffb8ff0: order='C')
+def key_of(case, clause, extra=""):
+    if extra in ("outputs_are_those_of_nditer_default_order_K", "scramble_predicted_by_iteration_model"):
+        # the outputs are cell for cell those of np.nditer's default order 'K': non-C-ordered layers are walked in
+        # memory order while the flat result is reshaped as if it were C order (repaired by ffb8ff0: order='C')
         return "local:non-c-layout-scrambled"
     return "local:" + clause
 
@@ -300,7 +296,7 @@ def observe(ctx, jobs, name, tally, parallel=6):
                 if len({a for a in t if a != NAN}) >= 2:
                     ctx.nontrivial((L, t))
         if cl != "ok":
-            tally.viol(key_of(case, cl), cl, case, "%s %dx%d L=%d layouts=%s strides=%s [%s]"
+            tally.viol(key_of(case, cl, ex), cl, case, "%s %dx%d L=%d layouts=%s strides=%s [%s]"
                        % (case["tag"], case["H"], case["W"], L, case["job"].get("layouts"), case["strides"], ex))
         if ex.startswith("drift"):
             tally.drifts += 1
